@@ -53,6 +53,15 @@ thread_local! {
     static FX_OPS: Cell<u64> = const { Cell::new(0) };
 }
 
+/// (budget, ops) of the calling OS thread: swapped by the coroutine scheduler at context switches
+pub fn fx_tls_get() -> (u64, u64) {
+    (FX_BUDGET.with(|b| b.get()), FX_OPS.with(|c| c.get()))
+}
+pub fn fx_tls_set(v: (u64, u64)) {
+    FX_BUDGET.with(|b| b.set(v.0));
+    FX_OPS.with(|c| c.set(v.1));
+}
+
 pub const FX_CRASH_MSG: &str = "rfsim: injected arithmetic crash";
 
 /// Arms the crash: the (k+1)-th arithmetic operation performed by this thread from now on panics.
